@@ -626,10 +626,24 @@ func (w *world) seq(out *c.Out, seq int, r *c.Rng) {
 	var lastBlock time.Time
 	haveLast := false
 	prevUser := -1
+	// keeper liquidations of x/hard positions: the oracle price of bnb is pushed under a borrower's limit, another
+	// user liquidates the position, the price comes back some blocks later; a liquidated user is steered into
+	// supplying / borrowing again after blocks in which it holds nothing
+	liquidated := false             // a liquidation succeeded in this sequence (x/hard keeps truncation dust in its totals)
+	reenter := make([]int, nUsers)  // block of the user's last liquidation while it has not re-entered, else -1
+	liqBlock := make([]int, nUsers) // block of the user's last liquidation, else -1
+	for u := range reenter {
+		reenter[u], liqBlock[u] = -1, -1
+	}
 
 	for b := 0; b < nblocks; b++ {
 		now = times[b]
 		ctx = ctx.WithBlockTime(now).WithBlockHeight(ctx.BlockHeight() + 1)
+		// the oracle price recovers
+		if !w.bnbPrice(ctx).Equal(baseBnbPrice) && r.Chance(45) {
+			w.setBnbPrice(ctx, baseBnbPrice)
+			out.Note("hliq:price-restored")
+		}
 
 		// ---- begin block: hard first, then incentive (app.go order)
 		type pre struct {
@@ -659,7 +673,9 @@ func (w *world) seq(out *c.Out, seq int, r *c.Rng) {
 				in.curS[ui] = sh.BigInt()
 				ss = append(ss, mant(sh))
 			}
-			if in.src == "deleg" {
+			if in.src == "deleg" || (liquidated && claimType(in.src) == "hard" && !w.interest) {
+				// x/hard after a liquidation: the bids / lots taken off the totals are truncated and a lot is capped at
+				// the module account's balance, so the totals may keep more than the remaining positions add up to
 				out.Case("", "c09.sumle", tag+in.src, mant(pres[k].T), join(ss))
 			} else if !w.interest || in.src == "swap" || in.src == "usdx" {
 				out.Case("", "c09.sum", tag+in.src, mant(pres[k].T), join(ss))
@@ -748,15 +764,50 @@ func (w *world) seq(out *c.Out, seq int, r *c.Rng) {
 			if o > 0 && r.Bool() {
 				u = prevUser
 			}
+			last := prevUser
 			same := o > 0 && u == prevUser
 			prevUser = u
 			addr := w.users[u]
 			kind := c.Pick(r, []string{"sdep", "sdep", "swd", "swd", "hdep", "hdep", "hwd", "hwd", "hbor", "hbor", "hrep", "hrep",
-				"hrep3", "hrep3", "cdep3", "ccreate", "cdraw", "cdraw", "crepay", "crepay", "cdep", "cwd", "ddel", "ddel", "dund", "dund", "edep", "edep", "ewd", "ewd",
+				"hrep3", "hrep3", "hliq", "hliq", "hliq", "cdep3", "ccreate", "cdraw", "cdraw", "crepay", "crepay", "cdep", "cwd", "ddel", "ddel", "dund", "dund", "edep", "edep", "ewd", "ewd",
 				"claim", "claim", "claim", "claim", "claim", "claim"})
 			if r.Chance(85) { // mostly operations that can succeed in the current state
 				for try := 0; try < 8 && !w.feasible(ctx, kind, addr); try++ {
-					kind = c.Pick(r, []string{"sdep", "swd", "hdep", "hwd", "hbor", "hrep", "hrep3", "cdep3", "ccreate", "cdraw", "crepay", "cdep", "cwd", "ddel", "dund", "edep", "ewd", "claim"})
+					kind = c.Pick(r, []string{"sdep", "swd", "hdep", "hwd", "hbor", "hrep", "hrep3", "hliq", "cdep3", "ccreate", "cdraw", "crepay", "cdep", "cwd", "ddel", "dund", "edep", "ewd", "claim"})
+				}
+			}
+			if _, has := hk.GetBorrow(ctx, addr); kind == "hliq" && !has && r.Chance(85) {
+				// aim at a user that has a borrow
+				for v := 1; v < nUsers; v++ {
+					if _, ok := hk.GetBorrow(ctx, w.users[(u+v)%nUsers]); ok {
+						u = (u + v) % nUsers
+						addr = w.users[u]
+						same = o > 0 && u == last
+						prevUser = u
+						break
+					}
+				}
+				if _, ok := hk.GetBorrow(ctx, addr); !ok {
+					// nobody borrows: build a position instead
+					kind = "hbor"
+					if _, ok := hk.GetDeposit(ctx, addr); !ok {
+						kind = "hdep"
+					}
+				}
+			}
+			// a user liquidated in an EARLIER block comes back: supplies again, then borrows again
+			for ru, lb := range reenter {
+				if lb >= 0 && lb < b && r.Chance(30) {
+					u, addr = ru, w.users[ru]
+					same = o > 0 && u == last
+					prevUser = u
+					if _, has := hk.GetDeposit(ctx, addr); !has {
+						kind = "hdep"
+					} else {
+						kind = "hbor"
+						reenter[ru] = -1
+					}
+					break
 				}
 			}
 			if kind == "claim" {
@@ -785,6 +836,18 @@ func (w *world) seq(out *c.Out, seq int, r *c.Rng) {
 			}
 			if err != nil {
 				out.Note("err:" + kind + ":" + errClass(err))
+			}
+			if cls == kapp.OK {
+				switch kind {
+				case "hliq":
+					liquidated = true
+					reenter[u], liqBlock[u] = b, b
+					out.Note("hliq:liquidated")
+				case "hdep", "hbor":
+					if liqBlock[u] >= 0 {
+						out.Note(fmt.Sprintf("hliq:reentry:%s:later-block=%v", kind, liqBlock[u] < b))
+					}
+				}
 			}
 			for k, in := range touched {
 				post := w.snapshot(ctx, in)
@@ -1053,6 +1116,20 @@ func (w *world) sourceOp(ctx sdk.Context, r *c.Rng, kind string, u int, ms msgSe
 		}
 		_, err := ms.earn.Withdraw(sdk.WrapSDKContext(ctx), earntypes.NewMsgWithdraw(addr.String(), sdk.NewCoin("usdx", x), earntypes.STRATEGY_TYPE_HARD))
 		return x.String(), err
+	case "hliq": // another user liquidates the owner's x/hard position (MsgLiquidate)
+		// mostly after an oracle move that puts the owner over its borrow limit; otherwise at the current price
+		// (refused unless an earlier move left the position over the limit)
+		desc := "asis"
+		if thr, ok := w.liquidationPrice(ctx, addr); ok && r.Chance(88) {
+			p := thr.MulInt64(r.Range(30, 99)).QuoInt64(100)
+			if p.GTE(minBnbPrice) && p.LT(w.bnbPrice(ctx)) {
+				w.setBnbPrice(ctx, p)
+				desc = "moved"
+			}
+		}
+		m := hardtypes.NewMsgLiquidate(actor, addr)
+		_, err := hardMsg.Liquidate(sdk.WrapSDKContext(ctx), &m)
+		return desc, err
 	case "cdep3": // a third party adds collateral to the owner's CDP
 		x := amt()
 		m := cdptypes.NewMsgDeposit(addr, actor, sdk.NewInt64Coin("busd", x), cdpType)
@@ -1080,6 +1157,54 @@ func (w *world) sourceOp(ctx sdk.Context, r *c.Rng, kind string, u int, ms msgSe
 		_, err := hardMsg.Repay(sdk.WrapSDKContext(ctx), &hardtypes.MsgRepay{Sender: sender.String(), Owner: addr.String(), Amount: cs})
 		return cs.String(), err
 	}
+}
+
+// ---------------------------------------------------------------------------------------------
+// the oracle price of bnb (x/hard values bnb deposits with it; nothing else in this world reads it)
+
+const bnbMarket = "bnb:usd"
+
+var (
+	baseBnbPrice = sdk.MustNewDecFromStr("17.25")
+	minBnbPrice  = sdk.MustNewDecFromStr("0.000000001")
+)
+
+func (w *world) price(ctx sdk.Context, market string) sdk.Dec {
+	cp, err := w.tApp.GetPriceFeedKeeper().GetCurrentPrice(ctx, market)
+	must(err)
+	return cp.Price
+}
+
+// setPrice: the (only) oracle posts a new price and the module takes the median, as its end blocker would
+func (w *world) setPrice(ctx sdk.Context, market string, p sdk.Dec) {
+	pk := w.tApp.GetPriceFeedKeeper()
+	_, err := pk.SetPrice(ctx, sdk.AccAddress{}, market, p, kapp.GenTime.AddDate(2000, 0, 0))
+	must(err)
+	must(pk.SetCurrentPrices(ctx, market))
+}
+
+func (w *world) bnbPrice(ctx sdk.Context) sdk.Dec       { return w.price(ctx, bnbMarket) }
+func (w *world) setBnbPrice(ctx sdk.Context, p sdk.Dec) { w.setPrice(ctx, bnbMarket, p) }
+
+// liquidationPrice: the bnb price under which addr's borrow exceeds its borrow limit (LTV 0.6 on every deposit,
+// usdx at 1 usd, equal conversion factors), from the stored position; false when no bnb price does
+func (w *world) liquidationPrice(ctx sdk.Context, addr sdk.AccAddress) (sdk.Dec, bool) {
+	hk := w.tApp.GetHardKeeper()
+	d, okD := hk.GetDeposit(ctx, addr)
+	bo, okB := hk.GetBorrow(ctx, addr)
+	if !okD || !okB {
+		return sdk.Dec{}, false
+	}
+	bnb := d.Amount.AmountOf("bnb")
+	if !bnb.IsPositive() {
+		return sdk.Dec{}, false
+	}
+	// borrowed > 0.6·(bnb·p + usdx)  ⇔  p < (borrowed/0.6 − usdx)/bnb
+	need := sdk.NewDecFromInt(bo.Amount.AmountOf("usdx")).Quo(sdk.MustNewDecFromStr("0.6")).Sub(sdk.NewDecFromInt(d.Amount.AmountOf("usdx")))
+	if !need.IsPositive() {
+		return sdk.Dec{}, false
+	}
+	return need.QuoInt(bnb), true
 }
 
 // doClaim: one claim message (one reward denom, one multiplier) of user u for a random claim type
